@@ -41,6 +41,10 @@ pub enum Mut {
     /// peer id / key / nested message does not. how: 0 empty, 1 replace by `bytes`, 2 drop last byte, 3 flip first byte,
     /// 4 flip last byte, 5 append `bytes`, 6 prepend `bytes`
     Field { pick: u16, how: u8, bytes: Vec<u8> },
+    /// structure-aware: replace the payload of one length-delimited field that looks like a multihash / peer id (two bytes
+    /// `code, len` followed by exactly `len` bytes) by a crafted one: identity digests of 0, 36, 42, 43, 64 and 65 bytes,
+    /// SHA-256 digests of 31, 32 and 33 bytes, a 64-byte SHA-512 one, an unknown code, a lying length
+    CraftId { pick: u16, form: u8 },
 }
 
 #[derive(Debug, Clone)]
@@ -146,6 +150,75 @@ fn pb_encode(nodes: &[PbNode]) -> Vec<u8> {
     out
 }
 
+fn looks_like_multihash(p: &[u8]) -> bool {
+    p.len() >= 2 && p[1] as usize == p.len() - 2 && (p[0] == 0x00 || p[0] == 0x12)
+}
+
+fn crafted_id(form: u8) -> Vec<u8> {
+    let body = |code: u8, declared: u8, n: usize| {
+        let mut v = vec![code, declared];
+        v.extend(fill_bytes(0x1d + form as u64, n));
+        v
+    };
+    match form % 12 {
+        0 => body(0x00, 43, 43),
+        1 => body(0x00, 64, 64),
+        2 => body(0x00, 42, 42),
+        3 => body(0x00, 65, 65),
+        4 => body(0x00, 0, 0),
+        5 => body(0x12, 32, 32),
+        6 => body(0x12, 31, 31),
+        7 => body(0x12, 32, 33),
+        8 => body(0x13, 64, 64),
+        9 => peer_from_seed(form as u64).to_bytes(),
+        10 => body(0x55, 20, 20),
+        _ => body(0x00, 50, 50),
+    }
+}
+
+fn pb_craft(nodes: &mut [PbNode], target: &mut usize, form: u8) -> bool {
+    for n in nodes.iter_mut() {
+        if let PbNode::Len { payload, children, .. } = n {
+            if looks_like_multihash(payload) {
+                if *target == 0 {
+                    *payload = crafted_id(form);
+                    *children = None;
+                    return true;
+                }
+                *target -= 1;
+            }
+            if let Some(c) = children {
+                if pb_craft(c, target, form) {
+                    return true;
+                }
+            }
+        }
+    }
+    false
+}
+
+fn pb_count_ids(nodes: &[PbNode]) -> usize {
+    nodes
+        .iter()
+        .map(|n| match n {
+            PbNode::Other(_) => 0,
+            PbNode::Len { payload, children, .. } => usize::from(looks_like_multihash(payload)) + children.as_ref().map(|c| pb_count_ids(c)).unwrap_or(0),
+        })
+        .sum()
+}
+
+/// Replaces one multihash-shaped field of a protobuf encoding by a crafted one (None when there is none).
+pub fn craft_id(b: &[u8], pick: u16, form: u8) -> Option<Vec<u8>> {
+    let mut tree = pb_parse(b, 0)?;
+    let n = pb_count_ids(&tree);
+    if n == 0 {
+        return None;
+    }
+    let mut target = pick_idx(pick, n);
+    pb_craft(&mut tree, &mut target, form);
+    Some(pb_encode(&tree))
+}
+
 /// Damages the payload of one length-delimited field of a protobuf encoding (None when the bytes are not a protobuf tree
 /// or have no such field).
 pub fn damage_field(b: &[u8], pick: u16, how: u8, bytes: &[u8]) -> Option<Vec<u8>> {
@@ -169,6 +242,7 @@ pub fn mut_strategy() -> impl Strategy<Value = Mut> {
         3 => (any::<u16>(), 0u8..9).prop_map(|(at, sel)| Mut::Varint { at, sel }),
         1 => (any::<u16>(), any::<u16>()).prop_map(|(at, from)| Mut::Splice { at, from }),
         4 => (any::<u16>(), 0u8..7, prop::collection::vec(any::<u8>(), 0..5)).prop_map(|(pick, how, bytes)| Mut::Field { pick, how, bytes }),
+        3 => (any::<u16>(), 0u8..12).prop_map(|(pick, form)| Mut::CraftId { pick, form }),
     ]
 }
 
@@ -229,6 +303,11 @@ pub fn apply(mut b: Vec<u8>, muts: &[Mut], other: &[u8]) -> Vec<u8> {
             }
             Mut::Field { pick, how, bytes } => {
                 if let Some(nb) = damage_field(&b, *pick, *how, bytes) {
+                    b = nb;
+                }
+            }
+            Mut::CraftId { pick, form } => {
+                if let Some(nb) = craft_id(&b, *pick, *form) {
                     b = nb;
                 }
             }
@@ -474,6 +553,17 @@ pub fn valid_encoding(target: Target, seed: u64) -> Vec<u8> {
     }
 }
 
+/// A Kademlia response carrying at least one peer (FIND_NODE, GET_VALUE or GET_PROVIDERS reply).
+pub fn kad_response_encoding(seed: u64) -> Vec<u8> {
+    let mut r = SplitMix(seed);
+    let peers: Vec<KademliaPeer> = (0..1 + r.below(4)).map(|_| kad_peer_from(&mut r)).collect();
+    match r.below(3) {
+        0 => KademliaMessage::find_node_response(fill_bytes(r.next(), 8), peers),
+        1 => KademliaMessage::get_value_response(RecordKey::from(fill_bytes(r.next(), 8)), peers, None),
+        _ => KademliaMessage::get_providers_response(Vec::new(), &peers),
+    }
+}
+
 /// Feeds the bytes to the real decoder; returns how deep it got: 0 rejected, 1 outer ok, 2 inner fields ok.
 fn feed(target: Target, input: &[u8]) -> Result<u8, CaseFail> {
     Ok(match target {
@@ -512,6 +602,20 @@ fn feed(target: Target, input: &[u8]) -> Result<u8, CaseFail> {
                     KademliaMessage::PutValue { .. } => 0,
                 };
                 ensure!(peers <= 20, "C19/kademlia-peer-list-exceeds-replication-factor", "{peers}");
+                // what the Kademlia handler does with every peer it was told about: the id becomes a /p2p component of the
+                // addresses handed to the transport manager and the routing table
+                let decoded: Vec<&KademliaPeer> = match &m {
+                    KademliaMessage::FindNode { peers, .. } | KademliaMessage::GetRecord { peers, .. } => peers.iter().collect(),
+                    KademliaMessage::GetProviders { peers, .. } => peers.iter().collect(),
+                    _ => Vec::new(),
+                };
+                for kp in decoded {
+                    let (id, _, _, addrs) = kp.verif_parts();
+                    let component = multiaddr::Protocol::P2p(id.into());
+                    for a in addrs {
+                        let _ = a.with(component.clone());
+                    }
+                }
                 2
             }
             None => 0,
